@@ -46,6 +46,16 @@ impl Hash for HKey {
     }
 }
 
+/// Key of the LossyCounter harness: equal iff the ids are equal, but `Hash` only sees the low three
+/// bits (a legal, coarse `Hash` impl): a table keyed by the hash instead of the element merges keys.
+#[derive(Clone, Debug, PartialEq, Eq)]
+pub struct LKey(pub u64);
+impl Hash for LKey {
+    fn hash<H: Hasher>(&self, state: &mut H) {
+        state.write_u64(self.0 & 7)
+    }
+}
+
 #[derive(Clone)]
 pub enum Cms {
     U8(CountMinSketch<u64, u8, ScriptBH>),
@@ -93,7 +103,7 @@ pub enum Inst {
     Cuckoo(CuckooFilter<u64, ScriptRng, ScriptBH>),
     Qf(QuotientFilter<u64, ScriptBH>),
     Res(ReservoirSampling<u64, ScriptRng>),
-    Lossy(LossyCounter<u64>),
+    Lossy(LossyCounter<LKey>),
     Heap(CMSHeap<HKey>),
     Td(Td),
     Set(HashSet<u64>),
@@ -205,7 +215,9 @@ impl Exec {
                 return "ok".into();
             }
             "hll.with" => {
-                let regs: Vec<u8> = t[3..].iter().map(|x| pu(x) as u8).collect();
+                // the caller's Vec has spare capacity (the sketch must go by its length)
+                let mut regs: Vec<u8> = Vec::with_capacity((t.len() - 3) * 3 / 2 + 7);
+                regs.extend(t[3..].iter().map(|x| pu(x) as u8));
                 self.insts.insert(
                     id,
                     Inst::Hll(HyperLogLog::with_registers_and_hash(pu(t[2]) as usize, regs, bh)),
@@ -575,6 +587,21 @@ impl Exec {
                 r.extend(t[2..].iter().map(|x| pu(x)).filter(|x| *x < (1u64 << 40)));
                 "ok".into()
             }
+            ("res.extendp", Inst::Res(r)) => {
+                // res.extendp <inst> <j> items...: Extend from an iterator that panics after yielding j
+                // items (the caller catches the panic and keeps the sampler): the j items were consumed
+                let j = pu(t[2]) as usize;
+                let items: Vec<u64> = t[3..].iter().map(|x| pu(x)).collect();
+                let r2 = catch_unwind(AssertUnwindSafe(|| {
+                    r.extend(items.iter().enumerate().map(|(i, x)| {
+                        if i >= j {
+                            panic!("iterator failure (scripted)");
+                        }
+                        *x
+                    }));
+                }));
+                if r2.is_err() { "caught".into() } else { "ok".into() }
+            }
             ("res.get", Inst::Res(r)) => {
                 let v: Vec<String> = r.reservoir().iter().map(|x| x.to_string()).collect();
                 format!("{} {} : {}", r.k(), r.i(), v.join(" "))
@@ -585,17 +612,17 @@ impl Exec {
                 "ok".into()
             }
             // LossyCounter ------------------------------------------------------------------
-            ("lossy.add", Inst::Lossy(l)) => b(l.add(pu(t[2]))),
+            ("lossy.add", Inst::Lossy(l)) => b(l.add(LKey(pu(t[2])))),
             ("lossy.addrep", Inst::Lossy(l)) => {
                 // the same element n times (long histories in one line)
                 let mut last = false;
                 for _ in 0..pu(t[3]) {
-                    last = l.add(pu(t[2]));
+                    last = l.add(LKey(pu(t[2])));
                 }
                 format!("{} {}", b(last), l.n())
             }
             ("lossy.query", Inst::Lossy(l)) => {
-                let mut v: Vec<u64> = l.query(pf(t[2])).collect();
+                let mut v: Vec<u64> = l.query(pf(t[2])).map(|x| x.0).collect();
                 v.sort();
                 let v: Vec<String> = v.iter().map(|x| x.to_string()).collect();
                 format!("[{}]", v.join(" "))
